@@ -401,7 +401,8 @@ class Tr:
                 return f'({r}).{a}', ty
             self.fail(e, 'attribute')
         if isinstance(e, ast.Tuple):
-            parts = [self.expr(x, env) for x in e.elts]
+            wants = list(want[1:]) if isinstance(want, tuple) and want[0] == 'Tup' and len(want) - 1 == len(e.elts) else [None] * len(e.elts)
+            parts = [self.expr(x, env, want=w) for x, w in zip(e.elts, wants)]
             return tup(p[0] for p in parts), TUP(*[p[1] for p in parts])
         if isinstance(e, ast.BinOp):
             return self.binop(e, env)
@@ -418,6 +419,11 @@ class Tr:
             return '[]', want or DICT(None, None)
         if isinstance(e, ast.List) and not e.elts:
             return '[]', want or LIST(None)
+        if isinstance(e, ast.List):                      # [a, b, …] of one element type
+            parts = [self.expr(x, env) for x in e.elts]
+            if any(p[1] != parts[0][1] for p in parts) or is_mutable(parts[0][1]):
+                self.fail(e, 'list literal of mixed or mutable elements')
+            return '[' + ', '.join(p[0] for p in parts) + ']', LIST(parts[0][1])
         if isinstance(e, ast.Dict):
             return self.tree_literal(e, env)
         if isinstance(e, ast.DictComp):
